@@ -9,7 +9,7 @@
 From Coq Require Import String List Reals.
 Import ListNotations.
 From Coq Require Import ZArith.
-From FV.C17 Require Import Model ProofsSym ProofsPoly ProofsEig ProofsAlign ProofsPlace ProofsBind AlignEntry ProofsEntry.
+From FV.C17 Require Import Model ProofsSym ProofsPoly ProofsEig ProofsAlign ProofsPlace ProofsBind AlignEntry ProofsEntry ProofsIdem.
 From FV.C17.gen Require Import TensorIdx AlignCfg.
 Open Scope R_scope.
 
@@ -184,6 +184,17 @@ Theorem C17_align_nnz_entry_values :
       sp_fmt A = CSR /\ sp_shape A = sp_shape M0 /\ positions (sp_ent A) = U /\
       forall p, eget ROps (sp_ent A) p = esum ROps (sp_ent M) p.
 Proof. exact align_nnz_entry_values. Qed.
+
+(* aligning matrices that are already aligned changes nothing: the returned matrices
+   are a fixed point of align_nnz (same format, shape, pattern, storage order and
+   stored values) - "returns the original values" at the level of the storage *)
+Theorem C17_align_nnz_entry_idempotent :
+  forall (M0 : spm R) (Ms' : list (spm R)) (As : list (spm R)),
+  let Ms := M0 :: Ms' in
+  Forall wf_spm Ms -> (forall M, In M Ms -> sp_shape M = sp_shape M0) ->
+  align_nnz_entry ROps Ms = inl As ->
+  align_nnz_entry ROps As = inl As.
+Proof. exact align_nnz_entry_idempotent. Qed.
 
 (* different shapes: ValueError, nothing is returned *)
 Theorem C17_align_nnz_entry_shape_mismatch :
